@@ -16,6 +16,9 @@ namespace vm {
 static std::vector<Driver> &drivers() { static std::vector<Driver> d; return d; }
 void register_driver(const Driver &d) { drivers().push_back(d); }
 const Driver *find_driver(const std::string &id) { for (auto &d : drivers()) if (id == d.id) return &d; return nullptr; }
+static std::map<std::string, HelperFn> &helpers() { static std::map<std::string, HelperFn> h; return h; }
+void register_helper(const std::string &name, HelperFn fn) { helpers()[name] = fn; }
+std::string self_exe() { char b[4096]; ssize_t n = readlink("/proc/self/exe", b, sizeof b - 1); if (n <= 0) return ""; b[n] = 0; return b; }
 }  // namespace vm
 using namespace vm;
 
@@ -121,6 +124,7 @@ static int usage() { fprintf(stderr, "usage: nixmon --prop ID [--tier T --seed S
 
 int main(int argc, char **argv) {
     std::string prop, tier = "quick", witness, out, scratch; uint64_t seed = 1, first = 0, count = 1; bool inproc = false; int timeout_override = 0;
+    if (argc >= 3 && std::string(argv[1]) == "--helper") { auto it = helpers().find(argv[2]); if (it == helpers().end()) return 2; H5Eset_auto2(H5E_DEFAULT, nullptr, nullptr); return it->second(argc - 3, argv + 3); }
     for (int i = 1; i < argc; i++) {
         std::string a = argv[i]; auto nx = [&]() -> std::string { return i + 1 < argc ? argv[++i] : ""; };
         if (a == "--prop") prop = nx(); else if (a == "--tier") tier = nx(); else if (a == "--seed") seed = strtoull(nx().c_str(), 0, 10);
